@@ -7,7 +7,7 @@ subscript and every call statement is recorded as an event, branches fork
 executed once with opaque loop variables.
 """
 from __future__ import annotations
-import ast
+import ast, re
 from .lin import Lin, Form
 from .frontend import src, AnalysisError
 
@@ -45,6 +45,8 @@ class State:
         self.rconds = []     # (resolved text of the test, outcome, test ast)
         self.ver = {}        # name -> assignment counter
         self.decided = {}    # test text -> (outcome, versions of its names)
+        self.jump = None     # pending break / continue
+        self.ended_by = None
 
     def fork(self):
         s = State(self.lin.copy())
@@ -57,6 +59,7 @@ class State:
         s.rconds = list(self.rconds)
         s.ver = dict(self.ver)
         s.decided = dict(self.decided)
+        s.jump = self.jump
         return s
 
     def stores(self, kinds=('store', 'augstore')):
@@ -88,12 +91,15 @@ class SymX:
         for st in stmts:
             nxt = []
             for s in states:
-                nxt.extend(self._stmt(st, s))
+                if s.jump:
+                    nxt.append(s)       # break / continue: the rest of the enclosing loop body is skipped
+                else:
+                    nxt.extend(self._stmt(st, s))
             states = nxt
             if len(states) + len(self._finished) > self.max_paths:
                 self.truncated = True
                 states = states[: max(1, self.max_paths - len(self._finished))]
-            if not states:
+            if not states or all(x.jump for x in states):
                 break
         return states
 
@@ -215,11 +221,16 @@ class SymX:
             # they are read before being written; we keep entry values (first iteration)
             s.depth += 1
             outs = self._block(st.body, [s])
+            broke = []
             for o in outs:
                 o.depth -= 1
                 o.events.append(Event('endloop', st, depth=o.depth))
+                if o.jump == 'break':
+                    broke.append(o)
+                o.jump = None
             if st.orelse:
-                outs = self._block(st.orelse, outs)
+                rest = [o for o in outs if not any(o is b for b in broke)]
+                outs = broke + (self._block(st.orelse, rest) if rest else [])
             return outs
         if isinstance(st, ast.While):
             self._record_calls(st.test, s, st)
@@ -229,6 +240,7 @@ class SymX:
             for o in outs:
                 o.depth -= 1
                 o.events.append(Event('endloop', st, depth=o.depth))
+                o.jump = None
             return outs
         if isinstance(st, (ast.With, ast.AsyncWith)):
             for it in st.items:
@@ -278,8 +290,15 @@ class SymX:
                     s.events.append(Event('delete', st, self._target_text(t, lin), None, node=t, depth=s.depth))
             return [s]
         if isinstance(st, (ast.Break, ast.Continue)):
-            # end of this iteration; approximated as falling out of the loop body
-            s.events.append(Event('break' if isinstance(st, ast.Break) else 'continue', st, depth=s.depth))
+            kind = 'break' if isinstance(st, ast.Break) else 'continue'
+            s.events.append(Event(kind, st, depth=s.depth))
+            if s.depth <= 0:
+                # the analysed body is one iteration of a loop: the iteration (path) ends here
+                s.done = True
+                s.ended_by = kind
+                self._finished.append(s)
+                return []
+            s.jump = kind
             return [s]
         return [s]
 
@@ -311,7 +330,8 @@ class SymX:
                 if tupforms is not None and len(tupforms) == len(t.elts):
                     self._assign_target(e, tupforms[i], None, s, st)
                 else:
-                    self._assign_target(e, Form.atom('(%s)[%d]' % (f.pretty(), i)), None, s, st)
+                    ft = f.pretty()
+                    self._assign_target(e, Form.atom(('%s[%d]' if re.fullmatch(r'[\w.]+', ft) else '(%s)[%d]') % (ft, i)), None, s, st)
         elif isinstance(t, ast.Starred):
             self._assign_target(t.value, f, None, s, st)
         else:
@@ -319,9 +339,37 @@ class SymX:
                                   extra=tupforms))
 
 
+_NOLIT = object()
+
+
+def _literal(txt):
+    if txt == 'None':
+        return None
+    if len(txt) >= 2 and txt[0] == txt[-1] and txt[0] in '\'"':
+        try:
+            v = ast.literal_eval(txt)
+        except Exception:
+            return _NOLIT
+        return v if isinstance(v, str) else _NOLIT
+    try:
+        return float(txt)
+    except ValueError:
+        return _NOLIT
+
+
 def _const_test(test, lin):
     """outcome of a comparison whose two sides are numeric constants under the current environment"""
     if isinstance(test, ast.Compare) and len(test.ops) == 1:
+        if isinstance(test.ops[0], (ast.Is, ast.IsNot, ast.Eq, ast.NotEq)):
+            # both sides are literals (None / string / number) under the current environment
+            try:
+                ta, tb = lin.form(test.left).pretty(), lin.form(test.comparators[0]).pretty()
+                la, lb = _literal(ta), _literal(tb)
+            except Exception:
+                la = lb = _NOLIT
+            if la is not _NOLIT and lb is not _NOLIT and (la is None or lb is None or isinstance(la, str) or isinstance(lb, str)):
+                same = (la is None and lb is None) or (la is not None and lb is not None and type(la) is type(lb) and la == lb)
+                return same if isinstance(test.ops[0], (ast.Is, ast.Eq)) else not same
         try:
             a = lin.form(test.left).const_value()
             b = lin.form(test.comparators[0]).const_value()
